@@ -38,7 +38,7 @@ def cases(draw):
     mode = draw(st.sampled_from(["heuristic", "thorough", "exhaustive"]))
     n = draw(st.integers(1, 10))
     return {"src": src, "setting": {"rate": rate, "blockshape": list(bs)}, "mode": mode,
-            "ops": [draw(ops.abstract_op(METHODS)) for _ in range(n)]}
+            "ops": [draw(ops.abstract_op(METHODS)) for _ in range(n)], "shared_reader": draw(st.booleans())}
 
 
 def hole_class(src):
@@ -70,7 +70,9 @@ def run_case(case, ctx):
         aops = [a for a in case["ops"] if a["m"] not in ops.METHODS_3D_HEADERS]
     else:
         aops = case["ops"]
-    labels = ops.run_ops(out, T, aops)
+    labels = ops.run_ops(out, T, aops, fresh=not case.get("shared_reader"))
+    if case.get("shared_reader"):
+        labels.append("shared-reader")
     # trace i is the i-th source trace
     from seismic_zfp.read import SgzReader
     with SgzReader(out) as r:
